@@ -160,6 +160,21 @@ pub proof fn lemma_error_code_unwire_unique(raw: Seq<u8>, e: ErrorCodeType)
     lemma_error_code_ext(e1, e);
 }
 
+// props: C01 C02
+pub proof fn lemma_error_code_roundtrip(e: ErrorCodeType)
+    requires 300 <= e.code() < 700, vstd::utf8::encode_utf8(e.reason_chars()).len() <= 509,
+    ensures error_code_unwire(error_code_wire(e.code() as int, e.reason_chars())) == Some(e),
+{
+    let raw = error_code_wire(e.code() as int, e.reason_chars());
+    let r = vstd::utf8::encode_utf8(e.reason_chars());
+    vstd::utf8::encode_utf8_valid_utf8(e.reason_chars());
+    assert(raw.subrange(4, raw.len() as int) =~= r);
+    let c = e.code() as int;
+    assert(raw[2] == (c / 100) as u8 && raw[3] == (c % 100) as u8);
+    assert(3 <= c / 100 <= 6 && (c / 100) % 8 == c / 100);
+    lemma_error_code_unwire_unique(raw, e);
+}
+
 // ---------------------------------------------------------------- common.rs: UTF-8 text values (`impl Decode for &str`, `impl Encode for &str`)
 impl<'a> Decode<'a> for &'a str {
 //@item stun_rs :: mod common > impl<'a> crate::Decode<'a> for &'a str > fn decode
